@@ -68,10 +68,10 @@ Print Assumptions c05_hypotheses_satisfiable.
 (* S7 (repaired by /repo bd2ee56): with the two-write append (`v_s7`) a crash between body and newline of an
    8 192-byte frame leaves a torn line; the acknowledged follow-up append is glued onto it; replay fails *)
 Theorem c05_torn_line_unfixed_refuted :
-  env_runb v_s7 init 0 s7_hist = true /\ env_runb v_s7 (crash v_s7 36 s7_hist) 2 s7_more = true
-  /\ has_ok (compile v_s7 (crash v_s7 36 s7_hist) 2 (OAppend 0 10)) = true
-  /\ replay_validated (run_ops v_s7 (crash v_s7 36 s7_hist) 2 s7_more) = None
-  /\ torn (truth (crash v_s7 36 s7_hist)) = true.
+  env_runb v_s7 init 0 s7_hist = true /\ env_runb v_s7 (crash v_s7 38 s7_hist) 2 s7_more = true
+  /\ has_ok (compile v_s7 (crash v_s7 38 s7_hist) 2 (OAppend 0 10)) = true
+  /\ replay_validated (run_ops v_s7 (crash v_s7 38 s7_hist) 2 s7_more) = None
+  /\ torn (truth (crash v_s7 38 s7_hist)) = true.
 Proof. exact s7_witness. Qed.
 Print Assumptions c05_torn_line_unfixed_refuted.
 
@@ -79,10 +79,10 @@ Print Assumptions c05_torn_line_unfixed_refuted.
    truth-log flush and the sidecar append re-issues a seq; the recovered log was valid, the acknowledged
    follow-up append makes replay fail *)
 Theorem c05_dup_after_crash_unfixed_refuted :
-  env_runb v_s3 init 0 s3_hist = true /\ env_runb v_s3 (crash v_s3 62 s3_hist) 3 s3_more = true
-  /\ has_ok (compile v_s3 (crash v_s3 62 s3_hist) 3 (OAppend 0 10)) = true
-  /\ replay_validated (crash v_s3 62 s3_hist) <> None
-  /\ replay_validated (run_ops v_s3 (crash v_s3 62 s3_hist) 3 s3_more) = None.
+  env_runb v_s3 init 0 s3_hist = true /\ env_runb v_s3 (crash v_s3 64 s3_hist) 3 s3_more = true
+  /\ has_ok (compile v_s3 (crash v_s3 64 s3_hist) 3 (OAppend 0 10)) = true
+  /\ replay_validated (crash v_s3 64 s3_hist) <> None
+  /\ replay_validated (run_ops v_s3 (crash v_s3 64 s3_hist) 3 s3_more) = None.
 Proof. exact s3_witness. Qed.
 Print Assumptions c05_dup_after_crash_unfixed_refuted.
 
@@ -91,7 +91,7 @@ Print Assumptions c05_dup_after_crash_unfixed_refuted.
    sidecar append, replay_events serves the well-formed sidecar, a proper prefix of the thread's stream *)
 Theorem c05_caches_reconciled_after_crash_refuted :
   env_runb fixed init 0 stale_hist = true
-  /\ snd (replay_events (crash fixed 41 stale_hist) 0) = Some [mkf 0 0 0 300 None]
-  /\ stream 0 (frames_of (truth (crash fixed 41 stale_hist))) = [mkf 0 0 0 300 None; mkf 0 1 4 10 None].
+  /\ snd (replay_events (crash fixed 43 stale_hist) 0) = Some [mkf 0 0 0 300 None]
+  /\ stream 0 (frames_of (truth (crash fixed 43 stale_hist))) = [mkf 0 0 0 300 None; mkf 0 1 4 10 None].
 Proof. exact stale_witness. Qed.
 Print Assumptions c05_caches_reconciled_after_crash_refuted.
